@@ -31,6 +31,7 @@ var (
 	flagMode    = flag.String("mode", "", "sub-mode of the property's check")
 	flagMaxFail = flag.Int("maxfail", 3, "stop after this many failures")
 	flagRefFile = flag.String("ref", "", "C12: reference table written by a -mode ref run in another process")
+	flagLibGo   = flag.Bool("libgo", false, "the code under test starts goroutines: run every call into it as a simulator task, so that its goroutines are scheduled by the simulator too")
 	flagCands   = flag.String("candidates", "", "print one-step reductions of the scenario in this replay file, one JSON per line")
 )
 
@@ -158,6 +159,11 @@ var (
 )
 
 func abortHook(kind, detail string) {
+	if kind != simrt.AbortDeadlock && kind != simrt.AbortStepCap && kind != simrt.AbortWatchdog {
+		// A limit of the simulator itself (task table, mutex table): no verdict.
+		emit(outRec{T: "note", Property: *flagProp, Seed: curSeed, Class: "harness-limit-" + kind, Detail: detail})
+		os.Exit(2)
+	}
 	if kind == simrt.AbortWatchdog {
 		fmt.Fprintln(os.Stderr, "harness: watchdog:", detail)
 		emit(outRec{T: "note", Property: *flagProp, Seed: curSeed, Class: "harness-watchdog", Detail: detail})
@@ -214,4 +220,23 @@ func raceLogText() string {
 // run idx (used when a failing run does not reproduce alone in a fresh process).
 func historyInfo(idx int64) map[string]interface{} {
 	return map[string]interface{}{"prop": *flagProp, "tier": *flagTier, "seed": fmt.Sprint(*flagSeed), "mode": *flagMode, "shard": *flagShard, "from": *flagFrom, "upto": idx + 1}
+}
+
+// simCall runs f, a call into the code under test made outside the main task
+// set of a run (reference computations, sequential scenarios). If the code under
+// test starts goroutines of its own, f runs as a single simulator task so that
+// those goroutines become tasks as well (scheduled deterministically: with an
+// exhausted tape a helper goroutine runs when its parent blocks). A panic in f
+// or in a goroutine it started is re-raised in the caller.
+func simCall(f func()) {
+	if !*flagLibGo {
+		f()
+		return
+	}
+	res := simrt.RunTasks([]func(){f}, 120*time.Second)
+	for _, r := range res {
+		if r.Panic != nil {
+			panic(r.Panic)
+		}
+	}
 }
